@@ -27,6 +27,7 @@ type User struct {
 	Version int // current desired version of the workload template (1, 2, 3 ...)
 	Released bool
 	Approvals int
+	Disturbed bool // the user did something after the release that changes what "finished" means
 }
 
 func NewUser(s *Sim, sc *Scenario) *User {
